@@ -3,9 +3,13 @@
 import json, glob, os
 ROOT = os.path.dirname(os.path.dirname(os.path.abspath(__file__)))
 checks = []
+# only properties the coordinator has verified end-to-end are claimed
+ready = set(json.load(open(os.path.join(ROOT, "ready.json"))))
 for f in sorted(glob.glob(os.path.join(ROOT, "props", "*.json"))):
     c = json.load(open(f))
     pid = c["id"]
+    if pid not in ready:
+        continue
     checks.append({
         "property_id": pid,
         "quick_cmd": "./check %s --tier quick" % pid,
